@@ -102,6 +102,14 @@ pub enum Op {
     Panic,
     /// one await of faked function `f` whose value expression panics (the awaiting code catches it)
     ValuePanic(u8),
+    /// a synchronous helper is faked on the same injector with a `times:` expectation that is never met:
+    /// the lifetime then ends with the library's own verification panic at scope exit
+    Unmet,
+}
+
+#[inline(never)]
+pub fn sync_helper() -> u32 {
+    std::hint::black_box(0x5E)
 }
 
 pub fn op_to_str(o: &Op) -> String {
@@ -110,11 +118,12 @@ pub fn op_to_str(o: &Op) -> String {
         Op::Drop => "D".into(),
         Op::Panic => "P".into(),
         Op::ValuePanic(f) => format!("V{f}"),
+        Op::Unmet => "U".into(),
     }
 }
 
 pub fn alphabet(small: bool) -> Vec<Op> {
-    let mut v = vec![Op::Fake(0, 0), Op::Drop, Op::Fake(1, 0), Op::Fake(0, 1), Op::Fake(2, 0), Op::Panic, Op::Fake(6, 0), Op::ValuePanic(0)];
+    let mut v = vec![Op::Fake(0, 0), Op::Drop, Op::Fake(1, 0), Op::Fake(0, 1), Op::Fake(2, 0), Op::Panic, Op::Fake(6, 0), Op::ValuePanic(0), Op::Unmet];
     if !small {
         v.extend([Op::ValuePanic(2), Op::Fake(1, 1), Op::Fake(2, 1), Op::Fake(3, 0), Op::Fake(3, 1), Op::Fake(4, 0), Op::Fake(5, 0), Op::Fake(5, 1), Op::Fake(6, 1), Op::Fake(7, 0), Op::Fake(7, 1)]);
     }
@@ -203,12 +212,15 @@ pub struct Model {
     pub alive: bool,
     /// per function: stack of flavours installed (top = in effect)
     pub stacks: [Vec<u8>; NF],
+    /// an expectation that scope exit will find unmet is pending
+    pub unmet: bool,
 }
 
 impl Model {
     pub fn enabled(&self, o: &Op) -> bool {
         match o {
             Op::Fake(..) => true,
+            Op::Unmet => !self.unmet,
             Op::ValuePanic(f) => self.alive && !self.stacks[*f as usize].is_empty(),
             _ => self.alive,
         }
@@ -220,8 +232,13 @@ impl Model {
                 self.stacks[*f as usize].push(*v);
             }
             Op::ValuePanic(_) => {}
+            Op::Unmet => {
+                self.alive = true;
+                self.unmet = true;
+            }
             _ => {
                 self.alive = false;
+                self.unmet = false;
                 for s in self.stacks.iter_mut() {
                     s.clear();
                 }
@@ -410,6 +427,13 @@ pub fn run_history(hist: &[Op], second_thread: bool) -> Res {
                         }
                         observe(&model, &mut res, idx, second_thread);
                     }
+                    Op::Unmet => {
+                        injector
+                            .when_called(inj::func!(sync_helper, fn() -> u32))
+                            .will_execute(inj::fake!(func_type: fn() -> u32, returns: 0x5F, times: 1000000000));
+                        model.step(&op);
+                        observe(&model, &mut res, idx, second_thread);
+                    }
                     Op::Drop => return,
                     Op::Panic => panic!("user panic inside the injector's scope"),
                 }
@@ -418,10 +442,12 @@ pub fn run_history(hist: &[Op], second_thread: bool) -> Res {
                 }
             }
         }));
+        let unmet_pending = model.unmet;
         model.step(&Op::Drop);
         if let Err(p) = &r {
             let m = payload_text(p.as_ref());
-            if !m.starts_with("user panic") {
+            // the verification panic of the pending expectation is what the history asked for (its wording is C06's)
+            if !m.starts_with("user panic") && !(unmet_pending && m.contains("1000000000")) {
                 res.violations.push(Violation { prop: "C14", key: "unexpected-panic".into(), step: idx, what: format!("lifetime ended with an unexpected panic: {m}") });
             }
         }
